@@ -7,6 +7,8 @@ open: the instant now == expire_time, which expired items a write physically
 removed, and (when the configuration can evict) which live items were evicted.
 Returns None when satisfied, else a description of the violated clause.
 """
+import re
+
 from common import Codec, render_sql, render_time
 
 MISSING = object()
@@ -34,6 +36,11 @@ class Ref:
         self.limit_changed = False
         self.depth = 0
         self.snaps = []
+        # hit / miss statistics: counted for get / [] / read while enabled (part of the transaction like everything else)
+        self.stat_on = bool(cfg.get('stats', 0))
+        self.hits = 0
+        self.misses = 0
+        self.stat_snap = None
 
     # -- helpers --------------------------------------------------------------
     def find(self, k):
@@ -91,13 +98,25 @@ def accept(hist, io, scope=None):
     """scope: set of methods this property speaks about (others are followed but not judged)"""
     from props.base import results_of
     ref = Ref(hist['cfg'])
-    for idx, (op, res) in enumerate(results_of(hist, io)):
-        m = op['m']
-        now = op.get('now', 0)
-        judge = scope is None or m in scope
-        err = step(ref, m, op, res, now, judge)
-        if err:
-            return 'op #%d %s: %s (got %s)' % (idx, m, err, res[:120])
+    ops = iter(hist['ops'])
+    idx = -1
+    for line, ans in io:
+        if line.startswith('op ') or line.startswith('lop '):
+            op = next(ops)
+            res = ans.split(' | ')[0][4:]
+            idx += 1
+            m = op['m']
+            now = op.get('now', 0)
+            judge = scope is None or m in scope
+            err = step(ref, m, op, res, now, judge)
+            if err:
+                return 'op #%d %s: %s (got %s)' % (idx, m, err, res[:120])
+        elif line == 'state' and (scope is None or 'stats' in scope) and ref.depth == 0:
+            # the stored counters (what stats() would return now) must be the look-ups counted so far
+            mm = re.match(r'c=-?\d+ z=-?\d+ h=(-?\d+) m=(-?\d+) ', ans)
+            if mm and (int(mm.group(1)), int(mm.group(2))) != (ref.hits, ref.misses):
+                return 'after op #%d the cache has counted %s hits and %s misses; the look-ups so far were %d hits and %d misses' % (
+                    idx, mm.group(1), mm.group(2), ref.hits, ref.misses)
     return None
 
 
@@ -112,6 +131,7 @@ def step(ref, m, op, res, now, judge):
         ref.depth += 1
         if ref.depth == 1:
             ref.snaps = [dict((c, dict(v)) for c, v in items.items())]
+            ref.stat_snap = (ref.stat_on, ref.hits, ref.misses)
         return None
     if m == 'tend':
         ref.depth -= 1
@@ -121,11 +141,31 @@ def step(ref, m, op, res, now, judge):
         if n >= ref.depth and ref.depth > 0:
             ref.items = ref.snaps[0]
             ref.depth = 0
+            if ref.stat_snap is not None:
+                ref.stat_on, ref.hits, ref.misses = ref.stat_snap
         else:
             ref.depth -= n
         return None
     if res.startswith('!Timeout'):
         return 'Timeout without contention' if judge else None
+
+    if m == 'stats':
+        want = '(i%d,i%d)' % (ref.hits, ref.misses)
+        err = None
+        if judge and res != want and not res.startswith('!'):
+            err = 'stats() must report the look-ups counted so far: %d hits and %d misses (%s)' % (ref.hits, ref.misses, want)
+        if int(op.get('reset', 0)):
+            ref.hits = ref.misses = 0
+        ref.stat_on = bool(int(op.get('enable', 1)))
+        return err
+    if m in ('get', 'getitem', 'read') and ref.stat_on and not res.startswith('!Timeout'):
+        # counted from what the call itself reported: a look-up that found the item is a hit, any other a miss
+        et_, tg_ = int(op.get('et', 0)), int(op.get('tg', 0))
+        miss_ = default_flags(et_, tg_) if m == 'get' else '!KeyError'
+        if res == miss_:
+            ref.misses += 1
+        elif not res.startswith('!'):
+            ref.hits += 1
 
     if m in ('set', 'add'):
         k = op['k']
